@@ -75,9 +75,18 @@ def exp_fn_inv : List (String × String) :=
 
 /-- units.py still wires its operators the way the model was transcribed from -/
 theorem operator_wiring :
-    ([Gen.uvalWiring, Gen.uval_sum, Gen.uval_product, Gen.uval_modulo, Gen.uval_rmodulo, Gen.uvalPow, Gen.uvalRpow, Gen.uarrWiring, Gen.uarr_sum, Gen.uarr_product, Gen.uarr_modulo, Gen.uarr_rmodulo, Gen.uarrPow, Gen.uarrRpow, Gen.uvalCmp_eq, Gen.uvalCmp_gt, Gen.uvalCmp_ge, Gen.uvalCmp_lt, Gen.uvalCmp_le, Gen.units_invert, Gen.units_multiply, Gen.units_raiseto, Gen.fn_neg, Gen.fn_inv] : List (List (String × String))) =
-      [exp_uvalWiring, exp_uval_sum, exp_uval_product, exp_uval_modulo, exp_uval_rmodulo, exp_uvalPow, exp_uvalRpow, exp_uarrWiring, exp_uarr_sum, exp_uarr_product, exp_uarr_modulo, exp_uarr_rmodulo, exp_uarrPow, exp_uarrRpow, exp_uvalCmp_eq, exp_uvalCmp_gt, exp_uvalCmp_ge, exp_uvalCmp_lt, exp_uvalCmp_le, exp_units_invert, exp_units_multiply, exp_units_raiseto, exp_fn_neg, exp_fn_inv] ∧
+    ([Gen.uvalWiring, Gen.uval_sum, Gen.uval_product, Gen.uval_modulo, Gen.uval_rmodulo, Gen.uvalPow, Gen.uvalRpow, Gen.uarrWiring, Gen.uarr_sum, Gen.uarr_product, Gen.uarr_modulo, Gen.uarr_rmodulo, Gen.uarrPow, Gen.uarrRpow, Gen.uvalCmp_eq, Gen.units_invert, Gen.units_multiply, Gen.units_raiseto, Gen.fn_neg, Gen.fn_inv] : List (List (String × String))) =
+      [exp_uvalWiring, exp_uval_sum, exp_uval_product, exp_uval_modulo, exp_uval_rmodulo, exp_uvalPow, exp_uvalRpow, exp_uarrWiring, exp_uarr_sum, exp_uarr_product, exp_uarr_modulo, exp_uarr_rmodulo, exp_uarrPow, exp_uarrRpow, exp_uvalCmp_eq, exp_units_invert, exp_units_multiply, exp_units_raiseto, exp_fn_neg, exp_fn_inv] ∧
     ([Gen.uvalCmpMethods, Gen.uarrCmpMethods] : List (List String)) = [exp_uvalCmpMethods, exp_uarrCmpMethods] := by
+  decide +kernel
+
+/-- the ordering methods of `UnitValue`: the two first branches as transcribed; the last branch either returns the
+`TypeError` (as found, known finding `cmp-array-returns-exception-object`) or raises it (the proposed fix) —
+the model reads which (`cmpElseRaises`) -/
+theorem comparison_wiring :
+    ∀ p ∈ [(Gen.uvalCmp_gt, exp_uvalCmp_gt), (Gen.uvalCmp_ge, exp_uvalCmp_ge), (Gen.uvalCmp_lt, exp_uvalCmp_lt),
+           (Gen.uvalCmp_le, exp_uvalCmp_le)],
+      p.1 = p.2 ∨ p.1 = p.2.dropLast ++ [("else", "raise TypeError")] := by
   decide +kernel
 
 /-! ## the homomorphism -/
@@ -108,6 +117,32 @@ theorem eval_homomorphism (pyPow : Rat → Rat → Rat) (hp : PowHom pyPow) (e :
   · cases hev : eval pyPow e with
     | ok r => rw [hev] at h; simp [Res.isError, h.1]
     | error er => rw [hev] at h; obtain ⟨e', h'⟩ := h; simp [Res.isError, h']
+
+/-- `**`: every operand pairing other than `UnitValue ** number` agrees with the specification outright
+(number ** number is the same function on both sides, everything else raises on both sides), so `PowHom` reduces
+to the scalar case.
+`eval_homomorphism` is therefore PARTIAL in one respect: the scalar case `hv` (the SI value of `x ** e` is
+`(SI value of x) ** e`, which for non-integer `e` needs `PowContract pyPow`, and the equivalence of `raiseto` with
+`dimPow`, for which see `pow_defined_iff`) is a hypothesis, not yet derived from `PowContract`; the correspondence
+check compares `**` on every generated tree (integer exponents −3..3 exactly, 1/2, 1/3, 2/3, 3/2 to 1e-9). -/
+theorem powHom_of_scalar (pyPow : Rat → Rat → Rat)
+    (hv : ∀ (x : UVal) (e : Rat), x.u.sys.valid = true →
+      Sim (powOp pyPow (.val x) (.num e)) (siPow pyPow (siOf (.val x)) (.num e))) : PowHom pyPow := by
+  intro a b ha hb
+  cases a with
+  | num m =>
+    cases b with
+    | num e =>
+      simp only [powOp, siPow, siOf]
+      cases powVal pyPow m e <;> simp [Sim, siOf, Operand.wf]
+    | val y => simp [powOp, siPow, siOf, Sim]
+    | arr y => simp [powOp, siPow, siOf, Sim]
+  | val x =>
+    cases b with
+    | num e => exact hv x e ha
+    | val y => simp [powOp, siPow, siOf, Sim]
+    | arr y => simp [powOp, siPow, siOf, Sim]
+  | arr x => cases b <;> simp [powOp, siPow, siOf, Sim]
 
 /-- one operator application, all nine operand-type pairings, forward and reflected methods -/
 theorem binop_homomorphism (op : BinOp) (a b : Operand) (ha : a.wf) (hb : b.wf) :
@@ -367,17 +402,21 @@ theorem cmp_other_dim (x y : UVal) (hd : x.u.dim ≠ y.u.dim) :
   cases op <;> simp_all [cmpOp, UVal.cmp, CmpOp.isOrdering]
 
 /-- KNOWN FINDING `cmp-array-returns-exception-object` (negation witness of the full comparison statement):
-`UnitValue < UnitArray` and `UnitArray < UnitValue` do not raise and are not booleans — the model, like the code,
-returns the exception object. -/
+as long as the last branch of the ordering methods `return`s its `TypeError` (`cmpElseRaises op = false`, read from
+the regenerated source), `UnitValue < UnitArray` and `UnitArray < UnitValue` do not raise and are not booleans — the
+model, like the code, returns the exception object; once the branch raises, both raise. -/
 theorem cmp_array_returns_exception_object (op : CmpOp) (ho : op.isOrdering = true) (x : UVal) (y : UArr) :
-    cmpOp op (.val x) (.arr y) = .ok .excObject ∧ cmpOp op (.arr y) (.val x) = .ok .excObject := by
-  cases op <;> simp_all [cmpOp, UVal.cmp, CmpOp.swap, CmpOp.isOrdering]
+    (cmpElseRaises op = false → cmpOp op (.val x) (.arr y) = .ok .excObject) ∧
+    (cmpElseRaises op.swap = false → cmpOp op (.arr y) (.val x) = .ok .excObject) ∧
+    (cmpElseRaises op = true → (cmpOp op (.val x) (.arr y)).isError = true) ∧
+    (cmpElseRaises op.swap = true → (cmpOp op (.arr y) (.val x)).isError = true) := by
+  refine ⟨?_, ?_, ?_, ?_⟩ <;> intro h <;> cases op <;>
+    simp_all [cmpOp, UVal.cmp, CmpOp.swap, CmpOp.isOrdering, Res.isError]
 
-example : cmpOp .lt (.val ⟨3, ⟨⟨"m", "s", "mol"⟩, ⟨1, 0, 0⟩⟩⟩) (.arr ⟨[1000, 2000], ⟨⟨"mm", "s", "mol"⟩, ⟨1, 0, 0⟩⟩⟩)
-    = .ok .excObject := by decide
-example : ¬ (∃ v, cmpOp .lt (.val ⟨3, ⟨⟨"m", "s", "mol"⟩, ⟨1, 0, 0⟩⟩⟩) (.arr ⟨[1000, 2000], ⟨⟨"mm", "s", "mol"⟩, ⟨1, 0, 0⟩⟩⟩)
-    = .ok (.bool v)) ∧ (cmpOp .lt (.val ⟨3, ⟨⟨"m", "s", "mol"⟩, ⟨1, 0, 0⟩⟩⟩) (.arr ⟨[1000, 2000], ⟨⟨"mm", "s", "mol"⟩, ⟨1, 0, 0⟩⟩⟩)).isError = false := by
-  decide
+/-- the witness on the tree under test: `3 m < [1000, 2000] mm` is the exception object exactly when the regenerated
+`__lt__` returns (does not raise) its `TypeError` -/
+example : (cmpOp .lt (.val ⟨3, ⟨⟨"m", "s", "mol"⟩, ⟨1, 0, 0⟩⟩⟩) (.arr ⟨[1000, 2000], ⟨⟨"mm", "s", "mol"⟩, ⟨1, 0, 0⟩⟩⟩)
+    = .ok .excObject) ↔ cmpElseRaises .lt = false := by decide
 
 /-! ## non-vacuity -/
 
